@@ -1596,7 +1596,9 @@ class _Compose(Component):
                     and hc["hin"][max(kmax, 0):] == hc["hout"][max(kmax, 0):]
                 res.append(("hybrid.handoff", okh, f"turn {i}: rerank_with_gel state-is-engine-state={hc['same_state']} in={hc['hin']} out={hc['hout']} k_max={kmax}"))
             l2 = (rt["logs"].get("t2") or [None])[0]
-            if rec["stage_called"] and l2 is not None and rec["hyb_calls"]:
+            # (with the T2 stage cache on, the stage call may be served by it while rag's second call reranks: the
+            #  first rerank call is the stage's only when every embedded query was reranked)
+            if rec["stage_called"] and l2 is not None and rec["hyb_calls"] and len(rec["hyb_calls"]) == len(rec["q"]):
                 hc0 = rec["hyb_calls"][0]
                 okr = (l2.get("hybrid") or {}) == hc0["info"] and bool(l2.get("hybrid_used")) == hc0["used"]
                 res.append(("records.hybrid", okr, f"turn {i}: t2 record hybrid={l2.get('hybrid')} hybrid_used={l2.get('hybrid_used')}; reranker reported {hc0['info']} used={hc0['used']}"))
@@ -1940,13 +1942,13 @@ class _Compose(Component):
 class ComposeTurn(_Compose):
     name = "compose.turn"
     max_turns = 1
-    budget = {"quick": 250, "thorough": 3000, "search": 1500}
+    budget = {"quick": 250, "thorough": 2400, "search": 1500}
 
 
 class ComposeHistory(_Compose):
     name = "compose.hist"
     max_turns = 4
-    budget = {"quick": 150, "thorough": 2000, "search": 1000}
+    budget = {"quick": 150, "thorough": 1500, "search": 1000}
 
 
 COMPONENTS = [ComposeTurn(), ComposeHistory()]
